@@ -26,7 +26,7 @@ RULE = ("case = (a) a sequence of <= 8 remote operations {f(\"expr\"), f(:name,a
 ASSUMPTIONS = ["one server per process (module-level singleton): sequences run one after another against the same live server with fresh variable names",
                "pickle transports the value universe; functions are outside the transportable universe (they arrive as proxies by design)"]
 MIN_COUNTS = {"quick": {"nontrivial": 300, "remote_results_compared": 1200, "fragmentations_checked": 15000, "undefined_transported": 50},
-              "thorough": {"nontrivial": 6000, "remote_results_compared": 25000, "fragmentations_checked": 100000, "undefined_transported": 1000}}
+              "thorough": {"nontrivial": 6000, "remote_results_compared": 25000, "fragmentations_checked": 80000, "undefined_transported": 1000}}
 CASE_TIMEOUT = 300
 MIN_SHARD = 4
 
